@@ -1,3 +1,8 @@
+import SlipVerif.Model.Equality
+import SlipVerif.Model.HashTable
 import SlipVerif.Model.Num
+import SlipVerif.Model.Types
+import SlipVerif.Driver.Equality
 import SlipVerif.Driver.Num
+import SlipVerif.Driver.Types
 import SlipVerif.Driver.Util
